@@ -2,6 +2,7 @@ package props
 
 import (
 	"bytes"
+	"encoding/binary"
 	"encoding/json"
 	"fmt"
 	"math/rand"
@@ -120,6 +121,37 @@ func poolCatalogue(r *core.Run, rng *rand.Rand) ([]poolTarget, bool) {
 			add(fmt.Sprintf("record#%d/tiff-exact/Parse", k), cls, exifCall("Parse", it.Tiff["LE"], -1))
 			add(fmt.Sprintf("record#%d/tiff-cut/Decode", k), cls, exifCall("Decode", d, len(d)-3))
 			add(fmt.Sprintf("record#%d/tiff-cut/Parse", k), cls, exifCall("Parse", d, 8+2+5))
+		}
+	}
+	// text values fetched from behind the directory (ImageDescription, Software, Artist), each LONGER than anything the same
+	// call has read before (so that what lies behind a short read in the scratch buffer is left over from EARLIER calls):
+	// the stream ends inside each of them, on the paths with and without a bufio reader
+	{
+		le := binary.LittleEndian
+		t := []byte("II*\x00\x08\x00\x00\x00\x03\x00")
+		vals := 8 + 2 + 36 + 4
+		for k, id := range []uint16{0x010e, 0x0131, 0x013b} {
+			e := make([]byte, 12)
+			le.PutUint16(e, id)
+			le.PutUint16(e[2:], 2)
+			le.PutUint32(e[4:], 200)
+			le.PutUint32(e[8:], uint32(vals+200*k))
+			t = append(t, e...)
+		}
+		t = append(t, 0, 0, 0, 0)
+		for k := 0; k < 3; k++ {
+			t = append(t, bytes.Repeat([]byte{byte('a' + k)}, 199)...)
+			t = append(t, 0)
+		}
+		for k := 0; k < 3; k++ {
+			for _, c := range []int{vals + 200*k, vals + 200*k + 5, vals + 200*k + 150} {
+				add(fmt.Sprintf("text-value-cut@%d/Parse", c), 1, exifCall("Parse", t, c))
+				add(fmt.Sprintf("text-value-cut@%d/Decode", c), 1, exifCall("Decode", t, c))
+				p := gen.WrapPNG(t, rng, 0)
+				if at := bytes.Index(p, t[:8]); at > 0 {
+					add(fmt.Sprintf("text-value-cut@%d/DecodePng", c), 1, exifCall("DecodePng", p, at+c))
+				}
+			}
 		}
 	}
 	// a date cut after the minutes / after the seconds' first digit: values shorter than the positions a parser reads
@@ -319,6 +351,36 @@ func runC04(r *core.Run) {
 			op.ID = len(ops)
 			ops = append(ops, op)
 			opT, opH = append(opT, ti), append(opH, hi)
+		}
+	}
+	// every target once behind every poison pattern (the rotation above reaches a given target only now and then):
+	// a call that fills the pools, the poisoning, the target
+	var fillers []int
+	for i, t := range targets {
+		if t.Cls == 3 && t.Op.Kind != "call" {
+			fillers = append(fillers, i)
+		}
+	}
+	for ti := range targets {
+		if targets[ti].Op.Kind == "call" || len(fillers) == 0 { // caller-owned reader targets have their own sequences below
+			continue
+		}
+		for pi := range poisons {
+			if r.Tier != "thorough" && (ti+pi)%2 == 1 {
+				continue
+			}
+			fi := fillers[(ti+pi)%len(fillers)]
+			f := targets[fi].Op
+			f.ID = len(ops)
+			ops = append(ops, f)
+			opT, opH = append(opT, fi), append(opH, -1)
+			a, _ := json.Marshal(poisons[pi])
+			ops = append(ops, core.Op{ID: len(ops), Kind: "poison", Cut: -1, Args: a})
+			opT, opH = append(opT, -1), append(opH, -1)
+			op := targets[ti].Op
+			op.ID = len(ops)
+			ops = append(ops, op)
+			opT, opH = append(opT, ti), append(opH, -1)
 		}
 	}
 	// a caller-owned bufio.Reader kept across ScanJPEG calls: re-target it, let other calls run, then scan
